@@ -320,8 +320,8 @@ func (e *ExpressionAtom) Evaluate(dataContext IDataContext, memory *WorkingMemor
 		e.Value = val
 		e.ValueNode = e.ExpressionAtom.ValueNode
 		if e.Negated {
-			if e.Value.Kind() == reflect.Bool {
-				e.Value = reflect.ValueOf(!e.Value.Bool())
+			if operand := pkg.GetValueElem(e.Value); operand.Kind() == reflect.Bool {
+				e.Value = reflect.ValueOf(!operand.Bool())
 				e.ValueNode = model.NewGoValueNode(e.Value, fmt.Sprintf("!%s", e.GrlText))
 			} else {
 				AstLog.Warnf("Expression \"%s\" is a negation to non boolean value, negation is ignored.", e.ExpressionAtom.GrlText)
